@@ -285,6 +285,21 @@ def rule_R10(text, args, log):
     return _replace_spans(text, spans, log)
 
 
+def rule_R10all(text, args, log):
+    """`E.iter()[.copied()].all(|v| P)` -> early-exit loop (same short-circuit order):
+       { let mut __allN = true; let mut __bN = 0; while __bN < E.len() && __allN { let v = &E[__bN]; __bN += 1; if !(P) { __allN = false; } } __allN }"""
+    spans = []
+    for i, (a, b, base, var, body, copied) in enumerate(_chain_calls(text, 'all')):
+        n = 'b%d' % i
+        deref = var.startswith('&')
+        v = var.lstrip('&')
+        bind = 'let %s = %s[__%s];' % (v, base, n) if (copied or deref) else 'let %s = &%s[__%s];' % (v, base, n)
+        new = '{ let mut __all%d = true; let mut __%s: usize = 0; while __%s < %s.len() && __all%d { %s __%s += 1; if !(%s) { __all%d = false; } } __all%d }' % (
+            i, n, n, base, i, bind, n, ' '.join(body.split()), i, i)
+        spans.append((a, b, new))
+    return _replace_spans(text, spans, log)
+
+
 def rule_R16(text, args, log):
     """`E.iter().copied().filter(|x| P).count()` -> counting loop; the closure parameter is a reference to the item, as in Iterator::filter"""
     m = mask(text)
@@ -338,6 +353,7 @@ BUILTIN = {
     'R6': rule_R6,
     'R7': rule_R7,
     'R10': rule_R10,
+    'R10all': rule_R10all,
     'R11': rule_R11,
     'R16': rule_R16,
     'RVP': rule_RVP,
